@@ -136,7 +136,16 @@ FORMS_REMOVE = ["list", "ndarray", "scalar", "intndarray", "npscalar", "roarray"
 FUNCTIONAL = {"subset", "split", "intersect", "merge_renumber", "merge_dropdup"}     # return a new list, self untouched
 
 
+def concrete_values(op):
+    """The requested abstract values of a call as the numbers the table holds (score tokens -> fractional scores)."""
+    if op["f"] == "score":
+        return [SCORES[v] for v in op["vals"]]
+    return [float(v + BASES[op["f"]]) for v in op["vals"]]
+
+
 def value_arg(vals, form):
+    if any(float(v) != int(v) for v in vals) and form in ("intlist", "intscalar", "intndarray"):
+        form = "list"                       # real-valued fields: no integer forms
     if not vals or (len(vals) > 1 and form in ("scalar", "npscalar", "intscalar")):
         form = "list" if not vals else {"scalar": "list", "npscalar": "list", "intscalar": "intlist"}[form]
     if form == "list":
@@ -148,7 +157,7 @@ def value_arg(vals, form):
     if form == "intscalar":
         return int(vals[0])
     if form == "npscalar":
-        return np.float64(vals[0]) if int(vals[0]) % 2 else np.int64(vals[0])
+        return np.int64(vals[0]) if (float(vals[0]) == int(vals[0]) and int(vals[0]) % 2 == 0) else np.float64(vals[0])
     if form == "intndarray":
         return np.array(vals, dtype=np.int64)
     if form == "tuple":
@@ -178,7 +187,7 @@ def apply_op(cm, A, B, op, variant, io=None):
         return fn()
 
     if name == "subset":
-        vals = [float(v + BASES[op["f"]]) for v in op["vals"]]
+        vals = concrete_values(op)
         arg = value_arg(vals, FORMS_SUBSET[variant % len(FORMS_SUBSET)])
         args["values"] = arg
         f = KEYCOL[op["f"]]
@@ -195,7 +204,7 @@ def apply_op(cm, A, B, op, variant, io=None):
             return call(lambda: A.get_motl_subset(feature_values=arg, feature_id=f, return_df=False, reset_index=True)), None
         return call(lambda: A.get_motl_subset(arg, f)), None
     if name == "remove":
-        vals = [float(v + BASES[op["f"]]) for v in op["vals"]]
+        vals = concrete_values(op)
         arg = value_arg(vals, FORMS_REMOVE[variant % len(FORMS_REMOVE)])
         args["values"] = arg
         if variant % 4 == 3:
@@ -268,6 +277,7 @@ def queries(A):
     for f in ("sid", "tomo", "obj", "cls"):
         vals = np.asarray(A.get_unique_values(KEYCOL[f]), dtype=float).ravel()
         uniq.append([_int_or(float(v), -1, BASES[f]) for v in vals])
+    uniq.append([SCORE_INV.get(float(v), -1) for v in np.asarray(A.get_unique_values("score"), dtype=float).ravel()])
     feat = np.asarray(A.get_feature("subtomo_id"), dtype=float).ravel()
     return uniq, [_int_or(float(v), -1, BASES["sid"]) for v in feat]
 
@@ -446,12 +456,12 @@ def _run_history(ctx, judge, a0, b0, steps, variant, kind, sample_all, case):
         q, qerr = core.call_guarded(queries, A)
         # (a query that raises is recorded as an impossible answer: MotlSetTrace names the clause - a broken table is a
         # C08_Schema / C08_TagsIntact failure first)
-        uniq, featsid = q if qerr is None else ([[-2]] * 4, [-2])
+        uniq, featsid = q if qerr is None else ([[-2]] * 5, [-2])
         rec = {"op": {k: v for k, v in op.items() if k != "parts"}, "a0": exp_a, "b0": exp_b, "a": got_a, "b": got_b,
                "argchg": argchg or "", "earlier": gone or "", "uniq": uniq, "featsid": featsid}
         same = got_a == st["a"] and got_b == exp_b and cols_ok(cols_a) and not argchg and not gone
         same = same and featsid == [r[0] for r in got_a] and all(uniq[m] == first_seen([r[j] for r in got_a])
-                                                                   for m, j in enumerate((0, 1, 2, 4)))
+                                                                   for m, j in enumerate((0, 1, 2, 4, 3)))
         if parts is not None:
             pp = [project(p.df) for p in parts]
             rec["parts"] = [p[0] for p in pp]
